@@ -12,7 +12,7 @@ import (
 
 func (c *Ctx) c19Histories(g *Gen) {
 	s := c.suite("builder-histories", "oracle",
-		"messages assembled through the builder API only: 12..120 calls per history (thorough: up to 400) over {BuildSecurityAssociation, BuildProposal on any SA built so far, BuildTransform on any of the five lists of any proposal built so far (six argument shapes), BuildTrafficSelectorInitiator/Responder, BuildIndividualTrafficSelector on any TS payload built so far, BuildConfiguration, BuildConfigurationAttribute on any CP payload built so far, BuildNonce, BuildNotification, BUildKeyExchange, BuildIdentificationInitiator, BuildCertificate, BuildNotify5G_QOS_INFO, BuildNotifyNAS_TCP_PORT}; after EVERY call the rendering of the whole container must equal the expectation kept by the oracle (= previous expectation with exactly the specified element appended at the specified place), and at the end the container must encode and decode to it when it lies in the encodable domain; one evaluation = one call; non-trivial = call number >= 2; distinct by (history, call)")
+		"messages assembled through the builder API only: 12..120 calls per history (thorough: up to 400) over {BuildSecurityAssociation, BuildProposal on any SA built so far, BuildTransform on any of the five lists of any proposal built so far (six argument shapes), BuildTrafficSelectorInitiator/Responder, BuildIndividualTrafficSelector on any TS payload built so far, BuildConfiguration, BuildConfigurationAttribute on any CP payload built so far, BuildNonce, BuildNotification, BUildKeyExchange, Reset() of transform / selector / configuration-attribute lists whose former slice value stays referenced and must keep showing its elements, BuildIdentificationInitiator, BuildCertificate, BuildNotify5G_QOS_INFO, BuildNotifyNAS_TCP_PORT}; after EVERY call the rendering of the whole container must equal the expectation kept by the oracle (= previous expectation with exactly the specified element appended at the specified place), and at the end the container must encode and decode to it when it lies in the encodable domain; one evaluation = one call; non-trivial = call number >= 2; distinct by (history, call)")
 	nh := c.n(60, 1500)
 	for h := 0; h < nh; h++ {
 		steps := 12 + g.r.Intn(109)
@@ -42,10 +42,48 @@ func (c *Ctx) c19Histories(g *Gen) {
 		var tss []tsRef
 		var cps []cpRef
 		var log []string
+		// slice values the application copied out of a sub-container before it Reset() that container (e.g. to reuse the
+		// list in another proposal): what they show must not change when the container is filled again
+		type keptList struct {
+			render func() string
+			want   string
+			what   string
+		}
+		var keptLists []keptList
 		for st := 0; st < steps; st++ {
 			var what string
 			x := g.r.Intn(100)
 			switch {
+			case x >= 60 && x < 64 && len(props) > 0 && st > 4:
+				r := props[g.r.Intn(len(props))]
+				li := g.r.Intn(5)
+				lists := []*message.TransformContainer{&r.p.EncryptionAlgorithm, &r.p.PseudorandomFunction, &r.p.IntegrityAlgorithm, &r.p.DiffieHellmanGroup, &r.p.ExtendedSequenceNumbers}
+				old := *lists[li]
+				keptLists = append(keptLists, keptList{func() string { return renderTC(old).String() }, renderTC(old).String(), "a transform list"})
+				lists[li].Reset()
+				r.sx.List[4+li].List = nil
+				what = fmt.Sprintf("TransformContainer.Reset (list %d of a proposal; its former value stays referenced)", li)
+			case x >= 64 && x < 66 && len(tss) > 0 && st > 4:
+				r := tss[g.r.Intn(len(tss))]
+				old := *r.c
+				keptLists = append(keptLists, keptList{func() string { return renderTS(old).String() }, renderTS(old).String(), "a selector list"})
+				r.c.Reset()
+				r.sx.List[1].List = nil
+				what = "IndividualTrafficSelectorContainer.Reset (its former value stays referenced)"
+			case x >= 66 && x < 68 && len(cps) > 0 && st > 4:
+				r := cps[g.r.Intn(len(cps))]
+				old := *r.c
+				rend := func() string {
+					out := L()
+					for _, a := range old {
+						out.List = append(out.List, L(A("A"), N(uint64(a.Type)), X(a.Value)))
+					}
+					return out.String()
+				}
+				keptLists = append(keptLists, keptList{rend, rend(), "a configuration attribute list"})
+				r.c.Reset()
+				r.sx.List[2].List = nil
+				what = "ConfigurationAttributeContainer.Reset (its former value stays referenced)"
 			case x < 6 || (st == 0):
 				sa := cont.BuildSecurityAssociation()
 				sx := L(A("SA"), L())
@@ -181,6 +219,14 @@ func (c *Ctx) c19Histories(g *Gen) {
 			caseText := fmt.Sprintf("history %d call %d %s", h, st, what)
 			setCase(caseText)
 			s.add(caseText, st >= 1, "op:"+what[:min(len(what), 24)])
+			for _, kl := range keptLists {
+				if got := kl.render(); got != kl.want {
+					c.violate(Violation{Suite: s.Name, Kind: "property", Index: h, Class: "builder-history-retained-list",
+						Desc:  fmt.Sprintf("after call %d (%s): %s that was copied out of its container before the container was Reset() has changed (replay: re-run of the suite with this seed)", st, what, kl.what),
+						Input: "", Expected: clip(kl.want), Actual: clip(got)})
+					return
+				}
+			}
 			if got, want := renderPayloads(cont).String(), exp.String(); got != want {
 				tail := log
 				if len(tail) > 12 {
